@@ -6,7 +6,7 @@ from fractions import Fraction
 from typing import Dict, List, Optional, Set
 
 from .. import algebra as A
-from ..abseval import Cond, Const, Ctx, Evaluator, Inst, Leaf, Scalar, State, S, SymObj, Undecided, cond_leaves, leaves
+from ..abseval import Cond, Const, Ctx, Evaluator, Inst, Leaf, NONE, Raised, Scalar, State, S, SymObj, Undecided, cond_leaves, leaves
 from ..cfg import CFG, reaching_definitions
 from ..check import Variant
 from ..effects import Effects
@@ -38,6 +38,95 @@ PROTECTED = {'drag_table', 'bc_points'}
 ALLOWED_FIELDS = {'_defined_units'}
 
 
+def check_effective_bc(prog: Program, rep, mb, rule: str) -> None:
+    """The effective-BC identity by evaluation of DragModelMultiBC as a whole (engine D, loops over the known lists
+    unrolled) on a finite family: a table of four Mach nodes with symbolic drag values, and one, two and three BC points
+    with symbolic BCs given in ascending, descending and mixed order, with and without bullet weight / diameter (so the
+    model BC is the sectional density symbol or 1).  For every outcome and every table entry,
+    standard CD x model BC / model CD must be the clamped piecewise-linear interpolation of the given BCs at the entry's
+    Mach number (computed here from the definition).  The all-lengths correctness of the interpolation routine itself is
+    R3's proof."""
+    import itertools
+    dm = prog.module(C.M_DM)
+    ddp, bcp, dmc = prog.cls(C.M_DM, 'DragDataPoint'), prog.cls(C.M_DM, 'BCPoint'), prog.cls(C.M_DM, 'DragModel')
+    table_mach = [Fraction(1, 2), Fraction(1), Fraction(3, 2), Fraction(5, 2)]
+    point_sets = [[(1, Fraction(1))], [(1, Fraction(5, 2))],
+                  [(1, Fraction(1)), (2, Fraction(2))], [(2, Fraction(2)), (1, Fraction(1))],
+                  [(1, Fraction(3, 4)), (2, Fraction(5, 4)), (3, Fraction(2))], [(3, Fraction(2)), (1, Fraction(3, 4)), (2, Fraction(5, 4))],
+                  [(2, Fraction(5, 4)), (3, Fraction(2)), (1, Fraction(3, 4))],
+                  [(1, Fraction(2)), (2, Fraction(3))], [(2, Fraction(1)), (1, Fraction(1, 4))]]      # a point beyond either end of the table
+
+    def expected(points, m) -> A.RF:
+        pts = sorted(points, key=lambda p_: p_[1])
+        if m <= pts[0][1]:
+            return A.sym(f'b{pts[0][0]}')
+        if m >= pts[-1][1]:
+            return A.sym(f'b{pts[-1][0]}')
+        for (k0, m0), (k1, m1) in zip(pts, pts[1:]):
+            if m0 <= m <= m1:
+                t_ = A.rf((m - m0) / (m1 - m0))
+                return A.sym(f'b{k0}') * (A.rf(1) - t_) + A.sym(f'b{k1}') * t_
+        raise AssertionError
+    problems: List[str] = []
+    n_cases = n_entries = 0
+    for points in point_sets:
+        ev = Evaluator(prog, hooks={**C.pref_hooks(prog), 'call:sectional_density': lambda *a_: S('sd')})
+        ev.unroll = True
+        st = State()
+        table = ev.new_list(st, [ev.new_inst(st, ddp, {'Mach': Scalar(m), 'CD': S(f'c{k}')}) for k, m in enumerate(table_mach, 1)])
+        pts = ev.new_list(st, [ev.new_inst(st, bcp, {'BC': S(f'b{k}'), 'Mach': Scalar(m), 'V': NONE}) for k, m in points])
+        env = {mb.positional[0]: pts, mb.positional[1]: table,
+               'weight': C.mk_quantity(ev, st, prog, 'Weight', 'w_raw', 'Grain'),
+               'diameter': C.mk_quantity(ev, st, prog, 'Distance', 'd_raw', 'Inch'),
+               'length': C.mk_quantity(ev, st, prog, 'Distance', 'l_raw', 'Inch')}
+        env = {k: v for k, v in env.items() if k in mb.params}
+        try:
+            tree, st = ev.run_func(mb, env, st)
+        except Undecided as exc:
+            raise AnalysisError(f'DragModelMultiBC on {len(points)} point(s): {exc}') from exc
+        label = f'{len(points)} BC point(s) given at Mach {[str(m) for _k, m in points]}'
+        seen_bc = set()
+        for _path, lf in leaves(tree):
+            if lf.kind == 'raise':
+                continue
+            for _cp, v in cond_leaves(lf.value):
+                if isinstance(v, Raised):
+                    continue
+                if not (isinstance(v, Inst) and v.cls is dmc):
+                    raise AnalysisError(f'DragModelMultiBC returns {v!r} in the abstract evaluation')
+                h = lf.state.heap[v.oid]
+                mbc = h.get('BC')
+                rows = ev.items(lf.state, h.get('drag_table')) if h.get('drag_table') is not None else None
+                if not isinstance(mbc, Scalar) or rows is None or len(rows) != len(table_mach):
+                    raise AnalysisError(f'the model built is not (BC number, table of {len(table_mach)} entries): BC {mbc!r}')
+                seen_bc.add(repr(mbc.rf))
+                n_cases += 1
+                for k, (row, m) in enumerate(zip(rows, table_mach), 1):
+                    rh = lf.state.heap[row.oid] if isinstance(row, Inst) else {}
+                    cd, mach = rh.get('CD'), rh.get('Mach')
+                    if not (isinstance(cd, Scalar) and isinstance(mach, Scalar) and mach.rf.equals(A.rf(m))):
+                        problems.append(f'{label}: entry {k} of the model is {rh!r}')
+                        continue
+                    eff = A.sym(f'c{k}') * mbc.rf / cd.rf
+                    want = expected(points, m)
+                    n_entries += 1
+                    if not eff.equals(want):
+                        problems.append(f'{label}, model BC {mbc.rf!r}: at Mach {m} standard CD x model BC / model CD = {eff!r}, the '
+                                        f'interpolated BC is {want!r}')
+        if not ({'sd', '1'} <= seen_bc):
+            problems.append(f'{label}: the model BC takes the values {sorted(seen_bc)}, expected the sectional density when weight and '
+                            f'diameter are given and 1 otherwise')
+    if problems:
+        rep.fail(rule, dm.path, mb.node.lineno, mb.qualname, 'effective-bc', problems[0] +
+                 (f' (and {len(set(problems)) - 1} more)' if len(set(problems)) > 1 else ''))
+    else:
+        rep.ok(rule, mb.where, f'standard CD x model BC / model CD = clamped piecewise-linear BC at every entry: {n_entries} entries of '
+               f'{n_cases} models ({len(point_sets)} point sets in every order, model BC = sectional density and 1)')
+        rep.ok(rule, mb.where, 'the result does not depend on the order the points are given in (each set evaluated in several orders)')
+        rep.ok(rule, mb.where, 'a single BC point gives the plain single-BC model (effective BC = that BC at every entry)')
+        rep.ok(rule, mb.where, 'model BC = sectional density when weight and diameter are given, else 1')
+
+
 def run(prog: Program, rep, thorough: bool) -> None:
     A.reset()
     rep.rule('C14.R1', 'no effect on the table / points passed in', 3)
@@ -65,96 +154,9 @@ def run(prog: Program, rep, thorough: bool) -> None:
 
     # ---- R2 ----------------------------------------------------------------------------------
     mb = prog.func(C.M_DM, 'DragModelMultiBC')
-    cfg = CFG(mb.node)
-    rd = reaching_definitions(cfg, mb.params)
-    dom = cfg.dominators()
-    interp = [c for c in ast.walk(mb.node) if isinstance(c, ast.Call) and (dotted(c.func) or '') == 'linear_interpolation']
-    if len(interp) != 1 or len(interp[0].args) != 3:
-        raise AnalysisError('DragModelMultiBC: expected one linear_interpolation(x, xp, yp) call')
-    call = interp[0]
-    cnode = cfg.node_of(call)
-
-    def comp_source(arg) -> Optional[ast.ListComp]:
-        return arg if isinstance(arg, ast.ListComp) and len(arg.generators) == 1 else None
-    xs, xp, yp = (comp_source(a) for a in call.args)
-    if not (xs and xp and yp):
-        raise AnalysisError('DragModelMultiBC: interpolation arguments are not simple comprehensions')
-    pts_xp, pts_yp = norm(xp.generators[0].iter), norm(yp.generators[0].iter)
-    if pts_xp != pts_yp or not isinstance(xp.generators[0].iter, ast.Name):
-        rep.fail('C14.R2', dm.path, call.lineno, mb.qualname, 'xp-yp',
-                 f'abscissae come from `{pts_xp}` but ordinates from `{pts_yp}`')
-    else:
-        pname = xp.generators[0].iter.id
-        # sorted: an in-place sort statement on that name dominating the call, or every reaching definition is sorted(...)
-        sorted_ok, how = False, ''
-        for n in cfg.nodes:
-            a = n.ast
-            if isinstance(a, ast.Expr) and isinstance(a.value, ast.Call) and isinstance(a.value.func, ast.Attribute) \
-                    and a.value.func.attr == 'sort' and norm(a.value.func.value) == pname and _key_is_mach(a.value):
-                if n.id in dom[cnode.id] and rd[cnode.id].get(pname) == rd[n.id].get(pname):
-                    sorted_ok, how = True, f'`{norm(a)}` dominates the call'
-        defs = [cfg.nodes[i] for i in rd[cnode.id].get(pname, set())]
-        if defs and all(isinstance(d.ast, ast.Assign) and isinstance(d.ast.value, ast.Call)
-                        and (dotted(d.ast.value.func) or '') == 'sorted' and _key_is_mach(d.ast.value) for d in defs):
-            sorted_ok, how = True, f'`{norm(defs[0].ast)[:70]}` is the only reaching definition'
-        xp_is_mach = norm(xp.elt) == f'{xp.generators[0].target.id}.Mach' if isinstance(xp.generators[0].target, ast.Name) else False
-        if sorted_ok and xp_is_mach:
-            rep.ok('C14.R2', dm.where(call), f'points sorted by Mach before interpolation: {how}')
-        else:
-            rep.fail('C14.R2', dm.path, call.lineno, mb.qualname, 'sorted',
-                     f'the interpolation is not dominated by a sort of `{pname}` by Mach '
-                     f'(abscissa expression `{norm(xp.elt)}`): the result depends on the order the points are given in')
-    # ordinates: x.BC / bc
+    rep.saw(mb)
+    check_effective_bc(prog, rep, mb, 'C14.R2')
     ev = Evaluator(prog)
-    tgt = yp.generators[0].target
-    bc_name = None
-    if isinstance(tgt, ast.Name):
-        st = State()
-        bcp = prog.cls(C.M_DM, 'BCPoint')
-        st.env[tgt.id] = ev.new_inst(st, bcp, {'BC': S('BCi'), 'Mach': S('Mi'), 'V': Const(None)})
-        names = {n.id for n in ast.walk(yp.elt) if isinstance(n, ast.Name)} - {tgt.id}
-        for nme in names:
-            st.env[nme] = S(f'${nme}')
-        try:
-            v = ev.eval(yp.elt, st, Ctx(dm, mb, None, 0))
-        except Undecided as exc:
-            raise AnalysisError(f'DragModelMultiBC ordinates: {exc}') from exc
-        for nme in names:
-            if isinstance(v, Scalar) and v.rf.equals(A.sym('BCi') / A.sym(f'${nme}')):
-                bc_name = nme
-    if bc_name:
-        rep.ok('C14.R2', dm.where(call), f'ordinates are BC / {bc_name}')
-    else:
-        rep.fail('C14.R2', dm.path, call.lineno, mb.qualname, 'ordinates',
-                 f'interpolated ordinates are `{norm(yp.elt)}`, expected BC divided by the model BC')
-    # abscissae of the query: Mach of the table being scaled
-    table_name = norm(xs.generators[0].iter)
-    # scaling: CD_new = CD_old / interp[i]
-    res_name = None
-    p = parent(call)
-    if isinstance(p, ast.Assign) and isinstance(p.targets[0], ast.Name):
-        res_name = p.targets[0].id
-    scaled = _scaling(prog, ev, mb, dm, table_name, res_name)
-    if scaled is None:
-        rep.undecided('C14.R2', mb.where, 'per-entry scaling', 'shape of the scaling loop not recognised')
-    elif scaled[0]:
-        rep.ok('C14.R2', mb.where, f'every entry of {table_name}: CD -> CD / {res_name}[i] (i = index of the entry)')
-    else:
-        rep.fail('C14.R2', dm.path, scaled[2], mb.qualname, 'scaling', scaled[1])
-    # model BC is the same bc
-    rets = [r for r in ast.walk(mb.node) if isinstance(r, ast.Return) and isinstance(r.value, ast.Call)
-            and (dotted(r.value.func) or '') == 'DragModel']
-    if not rets:
-        raise AnalysisError('DragModelMultiBC does not return DragModel(...)')
-    for r in rets:
-        a0 = r.value.args[0] if r.value.args else next((k.value for k in r.value.keywords if k.arg == 'bc'), None)
-        a1 = r.value.args[1] if len(r.value.args) > 1 else next((k.value for k in r.value.keywords if k.arg == 'drag_table'), None)
-        if a0 is not None and bc_name and norm(a0) == bc_name and a1 is not None:
-            rep.ok('C14.R2', dm.where(r), f'model BC = {bc_name}; standard CD * model BC / model CD = interp(BC)')
-        else:
-            rep.fail('C14.R2', dm.path, r.lineno, mb.qualname, 'model-bc',
-                     f'the model is built with BC `{norm(a0) if a0 is not None else None}` but the ordinates were divided by '
-                     f'`{bc_name}`: effective BC no longer equals the interpolated BC')
     check_interpolation(prog, rep, ev, 'C14.R3')
     bcp_machc = prog.func(C.M_DM, 'BCPoint._machC') if prog.has_func(C.M_DM, 'BCPoint._machC') else None
     if bcp_machc is not None:
